@@ -28,7 +28,7 @@ var c14SessionMethods = []string{"Read", "Write", "WriteBuffers", "SetDeadline",
 	"SetWindowSize", "SetMtu", "SetACKNoDelay", "SetNoDelay", "SetRateLimit", "SetLogger", "SetOOBHandler", "SendOOB", "GetOOBMaxSize",
 	"GetConv", "GetRTO", "GetSRTT", "GetSRTTVar", "LocalAddr", "RemoteAddr", "SetReadBuffer", "SetWriteBuffer", "SetDSCP", "Control", "Snmp"}
 
-var c14ListenerMethods = []string{"Accept", "L.SetDeadline", "L.SetReadDeadline", "L.Addr", "L.Control"}
+var c14ListenerMethods = []string{"Accept", "L.SetDeadline", "L.SetReadDeadline", "L.Addr", "L.Control", "L.SetReadBuffer", "L.SetWriteBuffer", "L.SetDSCP", "L.SetWriteDeadline"}
 
 type c14Prog struct {
 	Seed       uint64
@@ -249,6 +249,14 @@ func c14Run(p c14Prog, pc *pairCounter) (calls int64) {
 				_ = L.Addr().String()
 			case "L.Control":
 				L.Control(func(net.PacketConn) error { return nil })
+			case "L.SetReadBuffer":
+				L.SetReadBuffer(65536)
+			case "L.SetWriteBuffer":
+				L.SetWriteBuffer(65536)
+			case "L.SetDSCP":
+				L.SetDSCP(46)
+			case "L.SetWriteDeadline":
+				L.SetWriteDeadline(time.Now().Add(time.Millisecond))
 			}
 			total.Add(1)
 		}
